@@ -267,7 +267,9 @@ func (p *plug) settle() {
 	}
 }
 
-func (p *plug) advance(d int64) {
+// advance moves the clock tick by tick; after every tick the vacuum passes that were due have run. One "adv" event per
+// tick is recorded (the specification may have to place the reclaiming of a lost slot between two ticks).
+func (p *plug) advance(d int64, tr *vh.Trace) {
 	p.settle()
 	for i := int64(0); i < d; i++ {
 		p.now++
@@ -275,6 +277,7 @@ func (p *plug) advance(d int64) {
 		if p.clk.FireDue() > 0 {
 			p.settle()
 		}
+		tr.Add(vh.Ev{"ev": "adv", "d": 1})
 	}
 }
 
@@ -347,8 +350,7 @@ func runPlugin(sc *Script, tr *vh.Trace, uid *atomic.Int64) {
 				p = newPlug(e.Now, ttl)
 				tr.Add(vh.Ev{"ev": "reset", "now": e.Now})
 			case "adv":
-				p.advance(e.D)
-				tr.Add(vh.Ev{"ev": "adv", "d": e.D})
+				p.advance(e.D, tr)
 			case "conc":
 				var wg sync.WaitGroup
 				var arrived atomic.Int32
@@ -466,6 +468,7 @@ type engine struct {
 	handler routing.MessageHandler
 	mu      sync.Mutex
 	txn     map[string][2]string // id -> method, url
+	early   map[string]bool      // transactions the engine answered itself: the proxy never sends their response
 }
 
 func newEngine(dir string, policies string, ttlTicks int64) (*engine, error) {
@@ -489,7 +492,7 @@ func newEngine(dir string, policies string, ttlTicks int64) (*engine, error) {
 	if err != nil {
 		vh.Die("services.Initialize: %v", err)
 	}
-	e := &engine{dir: dir, txn: map[string][2]string{}}
+	e := &engine{dir: dir, txn: map[string][2]string{}, early: map[string]bool{}}
 	e.dm = routing.VerifNewPolicyModeManager(build, svc, runner.NewDiagnosisWorker(), w)
 	e.dm.SetHandleRoutes(http.NewServeMux())
 	e.handler = routing.Handler(e.dm)
@@ -581,7 +584,11 @@ func (e *engine) hreq(op Op) vh.Ev {
 		{"path", path}, {"query", ""}, {"headers", fmt.Sprintf("host: %s\r\n", host)}, {"body", []byte("")},
 	})
 	ra, pa := collect(g)
-	return vh.Ev{"op": "hreq", "t": op.T, "m": op.M, "url": op.URL, "acts": ra, "racts": pa, "ans": decode(as, ok)}
+	ans := decode(as, ok)
+	e.mu.Lock()
+	e.early[op.T] = ans.Early
+	e.mu.Unlock()
+	return vh.Ev{"op": "hreq", "t": op.T, "m": op.M, "url": op.URL, "acts": ra, "racts": pa, "ans": ans}
 }
 
 func (e *engine) hres(op Op) vh.Ev {
@@ -637,6 +644,12 @@ func runHandler(sc *Script, tr *vh.Trace, uid *atomic.Int64, outdir string, engi
 							case "hreq":
 								rec = e.hreq(op)
 							case "hres":
+								e.mu.Lock()
+								skip := e.early[op.T]
+								e.mu.Unlock()
+								if skip {
+									continue // answered by the engine: there is no provider response (script bookkeeping)
+								}
 								rec = e.hres(op)
 							default:
 								vh.Die("handler level: unknown op %q", op.Op)
